@@ -429,12 +429,24 @@ where
                 let mut runner = TestRunner::new_with_rng(cfg, rng);
                 let mut workers = Workers::new();
                 let first_sig: std::cell::RefCell<Option<String>> = std::cell::RefCell::new(None);
+                // Shrinking is bounded by wall-clock time as well (a failing candidate that is a hang costs a full
+                // time limit per attempt): past the budget every further candidate counts as passing, which ends the
+                // shrink at the smallest failing case found so far.  The verdict does not depend on it.
+                let shrink_budget = std::time::Duration::from_secs(
+                    std::env::var("VERIF_SHRINK_SECS").ok().and_then(|v| v.parse().ok()).unwrap_or(if ctx.quick() { 150 } else { 900 }),
+                );
+                let shrink_start: std::cell::Cell<Option<std::time::Instant>> = std::cell::Cell::new(None);
                 let workers_cell = std::cell::RefCell::new(&mut workers);
                 let r = runner.run(&strategy, |v| {
                     if stop.load(Ordering::Relaxed) && first_sig.borrow().is_none() {
                         return Ok(());
                     }
                     let counting = first_sig.borrow().is_none();
+                    if let Some(t0) = shrink_start.get() {
+                        if t0.elapsed() > shrink_budget {
+                            return Ok(());
+                        }
+                    }
                     let mut w = workers_cell.borrow_mut();
                     match test(&mut **w, &v, counting) {
                         Ok(()) => Ok(()),
@@ -443,6 +455,7 @@ where
                             match &*fs {
                                 None => {
                                     *fs = Some(f.sig.clone());
+                                    shrink_start.set(Some(std::time::Instant::now()));
                                     stop.store(true, Ordering::Relaxed);
                                     Err(TestCaseError::fail(format!("{}{}{}", f.sig, SEP, f.detail)))
                                 }
